@@ -63,4 +63,15 @@ PROPS = {
         outside=["multi-thread totals and spans merged across threads", "Session / Report aggregation, JSON output", "panic_on_next_alloc feature",
                  "more than 5 allocator calls per scenario; request sizes >= 2^40 (2^30 inside spans)"],
     ),
+    "C11": dict(
+        kani_suites=["many_cpus_impl"],
+        assumptions=[
+            "release-profile semantics (debug-assertions off)",
+            "SmallVec::resize replaced by a semantically equal truncate/push model (symbolic-size growth does not fit in CBMC)",
+            "Kani/CBMC/CaDiCaL trusted; unwinding assertions on",
+        ],
+        outside=["the Linux inventory itself (/proc/cpuinfo, node lists, cgroup files -> platform.rs): whole-file string scans over a mocked file system do not fit, and the mock seam exists only under cfg(test)",
+                 "the id-list codec cpulist::{emit,parse}: no verdict within 15 min even for 3 ids / 3 bytes (DESIGN.md P11/P25)",
+                 "mask widening (insert beyond the current width), masks wider than 2 words in executed harnesses, enumeration of more than one word"],
+    ),
 }
